@@ -5,7 +5,8 @@ Reads, on every check run,
   /repo/store/src/pmmr.rs                 `PMMRBackend::sync`            (order of the file flushes of ONE backend)
   /repo/store/src/types.rs                `AppendOnlyFile::flush`        (size file, set_len, write_all, sync_all)
   /repo/chain/src/txhashset/txhashset.rs  `extending`, `header_extending` (child commit, then which backend syncs in which order)
-  /repo/chain/src/chain.rs                `process_block_single`         (pipe::process_block before batch.commit)
+  /repo/chain/src/chain.rs                `process_block_single`         (pipe::process_block before batch.commit), `compact`
+  and `PMMRBackend::check_compact`, `AppendOnlyFile::replace`, `TxHashSet::compact` (the compaction path)
 and writes lean/GrinVerif/Gen/SyncOrder.lean (namespace GV.Gen.SyncOrder, data only: lists of
 names in SOURCE ORDER).  Props/C09SyncOrder.lean holds the decided obligations: the step lists of
 the crash models (`blockSteps`, `headerSteps`, `bodySteps`, `syncIns`, the kernel size-before-data
@@ -138,19 +139,42 @@ def extract(root):
         raise ValueError("header_extending: no discard()")
     res["headerExtendingCommit"] = ordered(b[k:], [("child_batch.commit", r"child_batch\.commit\(\)"),
                                                    ("header.sync", r"handle\.backend\.sync\(\)")])
+    # compaction: PMMRBackend::check_compact, AppendOnlyFile::replace, TxHashSet::compact, Chain::compact
+    b = body(pm, "check_compact")
+    res["checkCompact"] = ordered(b, [("hash_file.write_tmp_pruned", r"hash_file\s*\.write_tmp_pruned\("),
+                                      ("data_file.write_tmp_pruned", r"data_file\s*\.write_tmp_pruned\("),
+                                      ("hash_file.replace_with_tmp", r"hash_file\.replace_with_tmp\(\)"),
+                                      ("data_file.replace_with_tmp", r"data_file\.replace_with_tmp\(\)"),
+                                      ("prune_list.flush", r"prune_list\.flush\(\)"),
+                                      ("leaf_set.flush", r"leaf_set\.flush\(\)")])
+    b = body(ty, "replace")
+    res["aofReplace"] = ordered(b, [("remove_file", r"fs::remove_file\("), ("rename", r"fs::rename\(")])
+    # TxHashSet::compact is the only `fn compact` of txhashset.rs
+    b = body(th, "compact")
+    res["txhashsetCompact"] = ordered(b, [("output.check_compact", r"output_pmmr_h\s*\.backend\s*\.check_compact\("),
+                                          ("rproof.check_compact", r"rproof_pmmr_h\s*\.backend\s*\.check_compact\(")])
+    b = body(ch, "compact")
+    res["chainCompact"] = ordered(b, [("txhashset.compact", r"txhashset\.compact\("),
+                                      ("remove_historical_blocks", r"remove_historical_blocks\("),
+                                      ("batch.commit", r"\bbatch\.commit\(\)")])
     b = body(ch, "process_block_single")
     res["processBlockSingle"] = ordered(b, [("pipe.process_block", r"pipe::process_block\("),
                                             ("batch.commit", r"\bbatch\.commit\(\)")])
     return res
 
 
-NAMES = ["backendSync", "aofFlush", "extendingCommit", "headerExtendingCommit", "processBlockSingle"]
+NAMES = ["backendSync", "aofFlush", "extendingCommit", "headerExtendingCommit", "processBlockSingle",
+         "checkCompact", "aofReplace", "txhashsetCompact", "chainCompact"]
 
 
 CODES = {"hash_file.flush": 1, "data_file.flush": 2, "sync_leaf_set": 3, "prune_list.flush": 4,
          "size_file.flush": 10, "set_len": 11, "write_all": 12, "sync_all": 13,
          "child_batch.commit": 20, "output.sync": 21, "rproof.sync": 22, "kernel.sync": 23, "header.sync": 24,
-         "pipe.process_block": 30, "batch.commit": 31}
+         "pipe.process_block": 30, "batch.commit": 31,
+         "hash_file.write_tmp_pruned": 40, "data_file.write_tmp_pruned": 41, "hash_file.replace_with_tmp": 42,
+         "data_file.replace_with_tmp": 43, "leaf_set.flush": 44, "remove_file": 45, "rename": 46,
+         "output.check_compact": 50, "rproof.check_compact": 51, "txhashset.compact": 52,
+         "remove_historical_blocks": 53}
 
 
 def render(res, err):
